@@ -15,6 +15,7 @@ func init() { register("C08", checkC08) }
 
 func checkC08(c *Ctx) {
 	r := c.R
+	r.Rule("R08.7", "lock discipline: every mutex the package acquires is released on every path to a return, and while it is held no call is made that can come back to an acquisition of the same mutex (the sink logs its own failure diagnostic through the same logger); on the pinned default build the package acquires none")
 	r.Rule("R08.1", "shared-write rule (race freedom by ownership): every store on the logging path (field store, element store, map update, store through a pointer, package-variable store) targets memory owned by the call: the pooled PrintCtx of this call and what hangs off it, the pooled per-call attribute slice, locals and fresh allocations. A store whose target is a field of a logger or writer set, a package-level variable (other than the atomic size hint), or of unknown provenance is a violation")
 	r.Rule("R08.2", "in-place mutators get owned slices only: every slice that reaches the sort/de-duplication (and any other in-place slice mutator on the path) originates, over all call chains, from the per-call pooled slice, a fresh allocation, or an explicit copy (slices.Clone); never from a group's member list, a logger's attribute list, or a caller-supplied slice")
 	r.Rule("R08.6", "destination wrappers keep no per-record state: for every type of the package with a Write([]byte) method (the encoder excepted) SetLevel and Write store to no field of the receiver and hand no field address to a sync/atomic writer; the wrapper object is shared by all goroutines writing to that destination")
@@ -41,12 +42,17 @@ func checkC08(c *Ctx) {
 		c02Newline(c, p, m)
 		c02Pool(c, p, m)
 		c09Pooled(c, p, m, "R08.5", feasibleModes)
+		c09Globals(c, p, m)
+		c13Fanout(c, p, m)
+		lockDiscipline(c, p, "R08.7")
 	}
 	r.Rule("R08.5", "the record of exactly one call: in each output mode no field of the pooled encoder is read before the current call wrote it (engine E10, shared with R09.1), so nothing another call formatted can appear in this call's payload")
 	r.Rule("R02.1", "(shared with C02) at most one emission per call")
 	r.Rule("R02.2", "(shared with C02) one Write of the whole payload per destination")
 	r.Rule("R02.3", "(shared with C02) the payload is the finished buffer")
 	r.Rule("R02.6", "(shared with C02) pooled buffer discipline")
+	r.Rule("R13.1", "(shared with C13) every destination of the set receives each record: the fan-out loop has its natural exit only and hands each member the whole payload")
+	r.Rule("R09.2", "(shared with C09) the record of exactly one call: nothing rendered or collected for one call is kept in package-level or pooled state for the next (pooled attribute lists go back empty)")
 	c.Floor["R08.1"] = 60
 	c.Floor["R08.2"] = 2
 }
